@@ -1,6 +1,7 @@
 mod custom;
 mod cx;
 mod drv;
+mod giant;
 mod hashrec;
 mod kd;
 mod lits;
@@ -72,6 +73,9 @@ fn main() {
             };
             let mut vf = std::io::BufWriter::new(std::fs::File::create(&args[3]).unwrap());
             let (mut nb, mut ne, mut nm) = (0usize, 0usize, 0usize);
+            // mismatches per operation name: the first few of EVERY operation are written out, so that
+            // the caller can attribute each divergence to the property that owns the operation
+            let mut per_op: std::collections::BTreeMap<String, usize> = std::collections::BTreeMap::new();
             let mut distinct = std::collections::HashSet::new();
             let mut samples: Vec<serde_json::Value> = Vec::new();
             for line in std::io::BufRead::lines(rd) {
@@ -92,16 +96,19 @@ fn main() {
                 if samples.len() < 2 && line.len() < 1500 {
                     samples.push(beh.clone());
                 }
+                world::LIB_PANICKED.store(false, std::sync::atomic::Ordering::Relaxed);
                 let bad = with_codec!(codec.as_str(), A => replay_one::<A>(evs));
                 ne += evs.len();
                 if let Some((idx, observed)) = bad {
                     nm += 1;
-                    if nm <= 20 {
+                    let n = per_op.entry(evs[idx]["op"].as_str().unwrap_or("?").to_string()).or_insert(0);
+                    *n += 1;
+                    if *n <= 5 {
                         writeln!(vf, "{}", serde_json::json!({"behaviour": beh, "index": idx, "observed": observed})).unwrap();
                     }
                 }
             }
-            println!("{}", serde_json::json!({"behaviours": nb, "events": ne, "mismatches": nm, "distinct": distinct.len(), "samples": samples}));
+            println!("{}", serde_json::json!({"behaviours": nb, "events": ne, "mismatches": nm, "mismatch_ops": per_op, "distinct": distinct.len(), "samples": samples}));
         }
         "rerun" => {
             // re-execute recorded calls (observations dropped) on the current tree
